@@ -53,7 +53,36 @@ def fork_prefix(body):
     return body.path.rsplit("::", 1)[0]
 
 
-def skeleton(body, peers=()):
+_CONSUMES = {}
+
+
+def consumes(F, path, stack=()):
+    """Does the function (transitively, within its fork) touch the token cursor?"""
+    if path in _CONSUMES:
+        return _CONSUMES[path]
+    if path in stack:
+        return False
+    b = F.bodies.get(path)
+    if b is None:
+        return False
+    res = False
+    for c in b.calls():
+        nm = c.callee.split("::")[-1]
+        if c.callee.startswith("abasic_core::program::Program::") and nm in CURSOR:
+            res = True
+            break
+    if not res:
+        for c in b.calls():
+            if c.is_local and c.callee != path and ("Evaluator::" in c.callee or "Analyzer::" in c.callee):
+                if consumes(F, c.callee, stack + (path,)):
+                    res = True
+                    break
+    if not stack:
+        _CONSUMES[path] = res
+    return res
+
+
+def skeleton(body, peers=(), F=None, distinct=False):
     """[(kind, detail, in_loop)] in reverse post-order."""
     loops = body.natural_loops()
     loop_blocks = set()
@@ -73,7 +102,15 @@ def skeleton(body, peers=()):
             out.append((nm, det, inl))
         elif c.is_local and (c.callee.startswith(pref + "::") or any(c.callee.startswith(p + "::") for p in peers)) \
                 and nm not in ("program", "new", "expression_analyser"):
+            if F is not None and not consumes(F, c.callee):
+                continue  # bookkeeping helper that never touches the token cursor
             out.append(("call", nm, inl))
+    if distinct:
+        seen = []
+        for x in out:
+            if x not in seen:
+                seen.append(x)
+        return seen
     return out
 
 
